@@ -14,14 +14,17 @@ func seq(fs ...func(*Ctx)) func(*Ctx) {
 
 // All maps property ids to their rule sets.
 var All = map[string]func(*Ctx){
-	"C01": seq(C01, (*Ctx).c12OTP, (*Ctx).c12Recovery),
+	"C01": seq(C01, (*Ctx).c12OTP, (*Ctx).c12Recovery, (*Ctx).hasherPassThrough, func(c *Ctx) { c.flushUnmodified("C01.queue") }),
 	"C02": seq(C02, (*Ctx).c12Recovery, (*Ctx).c12SMS, (*Ctx).c01Pending, func(c *Ctx) {
 		c.beforeHandlersIssueNothing("C02.before-no-issue")
 		c.localizeFallback("C02.status-text")
 		c.halfAuthUpgradeGated("C02.halfauth-upgrade")
 	}),
 	"C03": seq(C03, func(c *Ctx) { c.ctxUserFirst("C03.subject") }),
-	"C04": seq(C04, func(c *Ctx) { c.vetoOnlyAfterCheck("C04.veto-after-check") }),
+	"C04": seq(C04, func(c *Ctx) {
+		c.vetoOnlyAfterCheck("C04.veto-after-check")
+		c.lockEnforced("C04.lock-enforced")
+	}),
 	"C05": seq(C05, func(c *Ctx) { c.moduleCopied("C05.instance") }),
 	"C06": seq(C06, func(c *Ctx) { c.ctxUserFirst("C06.subject") }),
 	"C07": seq(C07, func(c *Ctx) {
@@ -30,22 +33,23 @@ var All = map[string]func(*Ctx){
 		c.ctxUserFirst("C07.subject")
 	}),
 	"C08": seq(C08, func(c *Ctx) { c.mwOutermost("C08.outermost") }),
-	"C09": seq(C09, (*Ctx).flushDiscipline),
+	"C09": seq(C09, (*Ctx).flushDiscipline, func(c *Ctx) { c.flushUnmodified("C09.queue") }),
 	"C10": C10,
 	"C11": C11,
-	"C12": seq(C12, (*Ctx).smsInvariant),
+	"C12": seq(C12, (*Ctx).smsInvariant, func(c *Ctx) { c.localizeFallback("C12.status-text") }),
 	"C13": seq(C13, func(c *Ctx) {
 		c.localizeFallback("C13.status-text")
 		c.halfAuthUpgradeGated("C13.halfauth-upgrade")
 	}),
-	"C14": C14,
-	"C15": C15,
+	"C14": seq(C14, func(c *Ctx) { c.flushUnmodified("C14.queue") }),
+	"C15": seq(C15, func(c *Ctx) { c.oauthParamsReset("C15.params-reset") }),
 	"C16": seq(C16, func(c *Ctx) {
 		c.verdictNotAnError("C16.verdict")
 		c.ctxUserFirst("C16.subject")
+		c.vetoesFirst("C16.vetoes-first")
 	}),
 	"C17": C17,
 	"C18": C18,
-	"C19": C19,
+	"C19": seq(C19, (*Ctx).hasherPassThrough),
 	"C20": seq(C20, func(c *Ctx) { c.moduleCopied("C20.instance") }),
 }
